@@ -22,6 +22,7 @@ ENTRIES = [(HYP, q) for q in (
 
 
 def run(ctx):
+    ctx.do(H.rule_acos1)
     ctx.do(D.rule_t1, ENTRIES,
               "regular_polygon -> standard_rotation(2*pi/n) -> "
               "rotation_matrix -> array_like(like=<float>) yields an object "
